@@ -154,9 +154,16 @@ Inductive pc :=
 | PES (d : Z)                     (* staleHandleEmits.Add *)
 | PTU (d : Z).                    (* unknownSeriesEmits.Add *)
 
-Record thread := { t_pc : pc; t_prog : list op; t_slots : list href; t_out : list res (* newest first *) }.
+(* The last three fields are the CLIENT's own bookkeeping (ghost: never read by a step's control flow):
+   t_asked: tuples of the arity-correct WithLabelValues calls this client has started (slot k was asked for t_asked[k]);
+   t_cur:   the tuple the emission in flight is directed at (None: through a slot the client never obtained / wrong arity);
+   t_acct:  tally, by tuple, of the weight of this client's emissions that did not land in a series. *)
+Record thread := { t_pc : pc; t_prog : list op; t_slots : list href; t_out : list res (* newest first *);
+                   t_asked : list tuple; t_cur : option tuple; t_acct : list (tuple * Z) }.
+Definition seq_thread (o : op) (slots : list href) : thread :=
+  {| t_pc := PIdle; t_prog := [o]; t_slots := slots; t_out := []; t_asked := []; t_cur := None; t_acct := [] |}.
 Definition thread0 (prog : list op) : thread :=
-  {| t_pc := PIdle; t_prog := prog; t_slots := []; t_out := [] |}.
+  {| t_pc := PIdle; t_prog := prog; t_slots := []; t_out := []; t_asked := []; t_cur := None; t_acct := [] |}.
 
 (* ------------------------------------------------------------------ sync.Map *)
 Fixpoint map_load (m : list (N * nat)) (k : N) : option nat :=
@@ -216,11 +223,19 @@ Definition publish (c : cfg) (s : shared) (t : tuple) : shared * nat :=
 Definition finish (th : thread) (r : res) : thread :=
   {| t_pc := PIdle; t_prog := t_prog th;
      t_slots := match r with ResH h => t_slots th ++ [h] | _ => t_slots th end;
-     t_out := r :: t_out th |}.
+     t_out := r :: t_out th; t_asked := t_asked th; t_cur := t_cur th; t_acct := t_acct th |}.
 Definition goto (th : thread) (p : pc) : thread :=
-  {| t_pc := p; t_prog := t_prog th; t_slots := t_slots th; t_out := t_out th |}.
+  {| t_pc := p; t_prog := t_prog th; t_slots := t_slots th; t_out := t_out th; t_asked := t_asked th; t_cur := t_cur th; t_acct := t_acct th |}.
 Definition pop (th : thread) (rest : list op) : thread :=
-  {| t_pc := t_pc th; t_prog := rest; t_slots := t_slots th; t_out := t_out th |}.
+  {| t_pc := t_pc th; t_prog := rest; t_slots := t_slots th; t_out := t_out th; t_asked := t_asked th; t_cur := t_cur th; t_acct := t_acct th |}.
+Definition ask (th : thread) (t : tuple) : thread :=
+  {| t_pc := t_pc th; t_prog := t_prog th; t_slots := t_slots th; t_out := t_out th; t_asked := t_asked th ++ [t]; t_cur := t_cur th; t_acct := t_acct th |}.
+Definition aim (th : thread) (o : option tuple) : thread :=
+  {| t_pc := t_pc th; t_prog := t_prog th; t_slots := t_slots th; t_out := t_out th; t_asked := t_asked th; t_cur := o; t_acct := t_acct th |}.
+Definition tally (th : thread) (w : Z) : thread :=
+  {| t_pc := t_pc th; t_prog := t_prog th; t_slots := t_slots th; t_out := t_out th; t_asked := t_asked th;
+     t_cur := t_cur th;
+     t_acct := match t_cur th with Some t => (t, w) :: t_acct th | None => t_acct th end |}.
 
 Definition capped (c : cfg) : bool := 0 <? c_cap c.
 
@@ -228,18 +243,22 @@ Definition finished (th : thread) : bool :=
   match t_pc th, t_prog th with PIdle, [] => true | _, _ => false end.
 
 (* first atomic step of an operation *)
+Definition arity_ok (c : cfg) (t : tuple) : bool := Nat.eqb (length t) (c_nlabels c).
+
 Definition start_op (c : cfg) (s : shared) (th : thread) (o : op) : shared * thread :=
   match o with
   | OResolve t =>
-      if negb (Nat.eqb (length t) (c_nlabels c)) then (s, finish th ResPanic) else
+      if negb (arity_ok c t) then (s, finish th ResPanic) else
+      let th := ask th t in
       match lookup s t with                                (* series.Load + verify *)
       | Some id => (s, finish th (ResH (RH id)))
       | None => (s, goto th (PR1 t))
       end
   | OEmitH slot m d =>
+      let th := aim th (nth_error (t_asked th) slot) in
       match nth_error (t_slots th) slot with
       | None => (add_noop s (weight (c_kind c) d), finish th ResU)     (* no such handle: harness skips *)
-      | Some RTomb => (add_drops s (weight (c_kind c) d), finish th ResU)    (* isTombstone is immutable *)
+      | Some RTomb => (add_drops s (weight (c_kind c) d), finish (tally th (weight (c_kind c) d)) ResU)    (* isTombstone is immutable *)
       | Some (RH id) =>                                     (* h.stale.Load() *)
           match get_handle s id with
           | Some h => if h_stale h then (s, goto th (PES d)) else (s, goto th (PE1 id m d))
@@ -247,13 +266,14 @@ Definition start_op (c : cfg) (s : shared) (th : thread) (o : op) : shared * thr
           end
       end
   | OEmitT t m d =>
-      if negb (Nat.eqb (length t) (c_nlabels c)) then (add_noop s (weight (c_kind c) d), finish th ResPanic) else
+      if negb (arity_ok c t) then (add_noop s (weight (c_kind c) d), finish (aim th None) ResPanic) else
+      let th := aim th (Some t) in
       match lookup s t with                                (* series.Load + verify *)
       | Some id => (s, goto th (PE0 id m d))
       | None => (s, goto th (PTU d))
       end
   | OUnreg t =>
-      if negb (Nat.eqb (length t) (c_nlabels c)) then (s, finish th ResPanic) else
+      if negb (arity_ok c t) then (s, finish th ResPanic) else
       match lookup s t with
       | Some id => (s, goto th (PU1 t id))
       | None => (s, finish th (ResB false))
@@ -343,8 +363,8 @@ Definition tstep (c : cfg) (s : shared) (th : thread) : shared * thread :=
       | Some _ => (set_hs s (upd_nth (hs s) id (emit_into c m d)), finish th ResU)
       | None => (add_noop s (weight (c_kind c) d), finish th ResU)
       end
-  | PES d => (add_stales s (weight (c_kind c) d), finish th ResU)
-  | PTU d => (add_unknown s (weight (c_kind c) d), finish th ResU)
+  | PES d => (add_stales s (weight (c_kind c) d), finish (tally th (weight (c_kind c) d)) ResU)
+  | PTU d => (add_unknown s (weight (c_kind c) d), finish (tally th (weight (c_kind c) d)) ResU)
   end.
 
 (* ------------------------------------------------------------------ sequential model *)
@@ -357,7 +377,7 @@ Fixpoint run_thread (fuel : nat) (c : cfg) (s : shared) (th : thread) : shared *
 (* a client = its slot list; one operation run alone to completion (at most 8 atomic steps) *)
 Definition seq_fuel : nat := 8.
 Definition seq_op (c : cfg) (s : shared) (slots : list href) (o : op) : shared * list href * option res :=
-  let th := {| t_pc := PIdle; t_prog := [o]; t_slots := slots; t_out := [] |} in
+  let th := seq_thread o slots in
   let (s', th') := run_thread seq_fuel c s th in
   (s', t_slots th', if finished th' then hd_error (t_out th') else None).
 
